@@ -3,7 +3,7 @@ use crate::terms::*;
 use suiron::*;
 
 fn eff(v: &[Unifiable]) -> Vec<Unifiable> {
-    if v.len() >= 2 && v[v.len() - 1] == Unifiable::Nil { v[..v.len() - 1].to_vec() } else { v.to_vec() }
+    if v.len() >= 1 && v[v.len() - 1] == Unifiable::Nil { v[..v.len() - 1].to_vec() } else { v.to_vec() }
 }
 fn is_list(t: &Unifiable) -> bool { matches!(t, Unifiable::SLinkedList{..}) }
 
@@ -67,6 +67,6 @@ pub fn check_mll(case: &str) -> Result<(), String> {
     if tail_of(&res) != exp_tail { return Err(format!("tail differs: got {:?}", tail_of(&res).map(|t| ser(&t)))); }
     let exp_n = exp_elems.len() + if exp_tail.is_some() { 1 } else { 0 };
     if node_count(&res) != exp_n { return Err(format!("count differs: {} vs {}", node_count(&res), exp_n)); }
-    if terms.is_empty() && res != empty() { return Err("empty input must give the empty list".into()); }
+    if e.is_empty() && res != empty() { return Err("empty input must give the empty list".into()); }
     Ok(())
 }
